@@ -4,10 +4,11 @@
   the stack and which is written last, derived from the *VM arm* that executes the
   opcode (vm.rs step()) through the operand mapping of `instr_to_vminstr`
   (assembly.rs).  Nothing is taken from the optimizer.
-* `rust_support(...)` -- Rust text generated from the sliced `enum Instr`:
-  any_instr(), opcode(), instr_eq(), eq_except(), reg_at()/int_at()/tok_at(), the layout
-  accessors and the name-derived Imm-twin table.  A variant added to the enum shows up
-  in all of them (or the generator raises SliceError => UNDECIDED).
+* `verus_support(...)` -- Verus spec functions generated from the sliced `enum Instr`:
+  reg_at(), with_reg(), src1_pos()/src2_pos()/dest_pos(), imm_form(), the name-derived
+  Imm-twin maps twin_int()/twin_float(); `verus_narrow_imm` -- opcodes whose constant index is
+  cast `as u16`.  A variant added to the enum shows up in all of them (or the generator raises
+  SliceError => UNDECIDED).
 """
 import re
 import slicer as S
@@ -206,7 +207,7 @@ def twins(variants):
     return out
 
 
-# ------------------------------------------------------------------ Rust generation
+# ------------------------------------------------------------------ pattern helper
 
 def _pat(name, info, prefix):
     n = len(info['fields'])
@@ -215,114 +216,6 @@ def _pat(name, info, prefix):
     if info['kind'] == 'struct':
         return 'Instr::%s { %s }' % (name, ', '.join('%s: %s%d' % (f, prefix, i) for i, (f, _) in enumerate(info['fields'])))
     return 'Instr::%s(%s)' % (name, ', '.join('%s%d' % (prefix, i) for i in range(n)))
-
-
-def _any(ty):
-    if ty == 'Reg':
-        return 'any_reg()'
-    if ty in TOKS:
-        return 'any_tok()'
-    return 'kani::any::<%s>()' % ty
-
-
-def rust_support(variants, lay, tw):
-    names = list(variants)
-    if len(names) > 255:
-        raise S.SliceError("more than 255 opcodes: widen the selector")
-    o = []
-    o.append("// ===== generated from the sliced `enum Instr` (%d variants) and the VM arms =====" % len(names))
-    o.append("pub const N_OPCODES: u16 = %d;" % len(names))
-    o.append("pub fn any_reg() -> Reg { if kani::any() { Reg::Top } else { Reg::Offset(kani::any()) } }")
-    o.append("pub fn any_tok() -> String { String(kani::any()) }")
-    o.append("pub fn reg_eq(a: &Reg, b: &Reg) -> bool { match (a, b) { (Reg::Top, Reg::Top) => true, (Reg::Offset(x), Reg::Offset(y)) => x == y, _ => false } }")
-    o.append("pub fn is_top(r: &Reg) -> bool { matches!(r, Reg::Top) }")
-    # any_instr
-    o.append("/// opcode k (CONCRETE k in every harness: a symbolic discriminant over %d variants costs CBMC minutes and gigabytes)\n"
-             "/// with fully symbolic operands\npub fn mk_instr(k: u8) -> Instr {\n    match k {" % len(names))
-    for k, n in enumerate(names):
-        info = variants[n]
-        if not info['fields']:
-            c = 'Instr::%s' % n
-        elif info['kind'] == 'struct':
-            c = 'Instr::%s { %s }' % (n, ', '.join('%s: %s' % (f, _any(t)) for f, t in info['fields']))
-        else:
-            c = 'Instr::%s(%s)' % (n, ', '.join(_any(t) for _, t in info['fields']))
-        o.append("        %d => %s," % (k, c))
-    o.append("        _ => panic!(\"mk_instr: no such opcode\"),\n    }\n}")
-    # opcode
-    o.append("pub fn opcode(i: &Instr) -> u16 {\n    match i {")
-    for k, n in enumerate(names):
-        info = variants[n]
-        p = 'Instr::%s' % n + ('' if not info['fields'] else ' { .. }' if info['kind'] == 'struct' else '(..)')
-        o.append("        %s => %d," % (p, k))
-    o.append("    }\n}")
-    for k, n in enumerate(names):
-        o.append("pub const OP_%s: u16 = %d;" % (n, k))
-
-    def eqexpr(ty, a, b):
-        if ty == 'Reg':
-            return 'reg_eq(%s, %s)' % (a, b)
-        return '%s == %s' % (a, b)
-    # eq_except (pos == usize::MAX => full equality)
-    o.append("pub fn eq_except(a: &Instr, b: &Instr, pos: usize) -> bool {\n    match (a, b) {")
-    for n in names:
-        info = variants[n]
-        if not info['fields']:
-            o.append("        (Instr::%s, Instr::%s) => true," % (n, n))
-            continue
-        conds = ' && '.join('(pos == %d || %s)' % (i, eqexpr(t, 'a%d' % i, 'b%d' % i)) for i, (_, t) in enumerate(info['fields']))
-        o.append("        (%s, %s) => %s," % (_pat(n, info, 'a'), _pat(n, info, 'b'), conds))
-    o.append("        _ => false,\n    }\n}")
-    o.append("pub fn instr_eq(a: &Instr, b: &Instr) -> bool { eq_except(a, b, usize::MAX) }")
-    # payload accessors
-    for fname, rty, pred, conv in (('reg_at', 'Reg', lambda t: t == 'Reg', '%s.clone()'),
-                                   ('int_at', 'AbraInt', lambda t: t == 'AbraInt', '*%s'),
-                                   ('tok_at', 'String', lambda t: t in TOKS, '%s.clone()'),
-                                   ('i16_at', 'i16', lambda t: t == 'i16', '*%s'),
-                                   ('u16_at', 'u16', lambda t: t == 'u16', '*%s'),
-                                   ('bool_at', 'bool', lambda t: t == 'bool', '*%s')):
-        o.append("pub fn %s(i: &Instr, pos: usize) -> Option<%s> {\n    match i {" % (fname, rty))
-        for n in names:
-            info = variants[n]
-            idx = [k for k, (_, t) in enumerate(info['fields']) if pred(t)]
-            if not idx:
-                continue
-            body = ' '.join('if pos == %d { return Some(%s); }' % (k, conv % ('a%d' % k)) for k in idx)
-            o.append("        %s => { %s None }" % (_pat(n, info, 'a').replace('a', 'a'), body))
-        o.append("        _ => None,\n    }\n}")
-    # arity
-    o.append("pub fn arity(i: &Instr) -> usize {\n    match opcode(i) {")
-    for k, n in enumerate(names):
-        o.append("        %d => %d," % (k, len(variants[n]['fields'])))
-    o.append("        _ => 0,\n    }\n}")
-    # layout accessors
-    for key in ('src1', 'src2', 'dest'):
-        o.append("/// from the VM arm: %s" % {'src1': 'register fetched first, before any other stack access',
-                                               'src2': 'register fetched directly after src1',
-                                               'dest': 'register written by the last stack access'}[key])
-        o.append("pub fn %s_pos(i: &Instr) -> Option<usize> {\n    match opcode(i) {" % key)
-        for k, n in enumerate(names):
-            v = lay[n][key]
-            if v is not None:
-                o.append("        %d /* %s -> vm %s: %s */ => Some(%d)," % (k, n, lay[n]['vm'], lay[n]['events'], v))
-        o.append("        _ => None,\n    }\n}")
-    # imm position (int / float) from instr_to_vminstr
-    for kind in ('int', 'float'):
-        o.append("pub fn %s_imm_pos(i: &Instr) -> Option<usize> {\n    match opcode(i) {" % kind)
-        for k, n in enumerate(names):
-            im = lay[n]['imm']
-            if im and im[0] == kind + '_imm':
-                o.append("        %d /* %s */ => Some(%d)," % (k, n, im[1]))
-        o.append("        _ => None,\n    }\n}")
-    # twins by name
-    for kind in ('int', 'float'):
-        o.append("/// Imm twin by opcode NAME (X <-> XImm; ArrayPush <-> ArrayPushIntImm)")
-        o.append("pub fn %s_twin(op: u16) -> Option<u16> {\n    match op {" % kind)
-        for n, (t, kd) in tw.items():
-            if kd == kind:
-                o.append("        OP_%s => Some(OP_%s)," % (n, t))
-        o.append("        _ => None,\n    }\n}")
-    return '\n'.join(o) + '\n'
 
 
 # ------------------------------------------------------------------ Verus generation
